@@ -8,6 +8,7 @@ mod ops_address;
 mod ops_amount;
 mod ops_basic;
 mod ops_codec;
+mod ops_json;
 
 pub fn unhex(s: &str) -> Option<Vec<u8>> {
     if s == "-" {
@@ -38,6 +39,9 @@ fn run_line(line: &str) -> String {
         return r;
     }
     if let Some(r) = ops_codec::run(op, &args) {
+        return r;
+    }
+    if let Some(r) = ops_json::run(op, &args) {
         return r;
     }
     "BADCASE".to_string()
